@@ -337,6 +337,10 @@ def gen(r, tier):
             if r.chance(0.12):
                 op["abbrev"] = 0
                 path = []
+            if r.chance(0.45):
+                # the client fetches the listing block by block (small blocks, so that any listing takes several), with
+                # a pause between the blocks in which registrations may change: what it assembles is ONE listing
+                op["b2"] = {"szx": r.choice([0, 0, 1, 2, 3]), "gap": r.choice([0.0, 0.02, 0.3, 1.0, 3.0])}
         elif x < 0.3:
             op["abbrev"] = r.choice([1, 2, 301, 302, 1, 301, 7, 4711])
             path = []
@@ -509,6 +513,19 @@ class Client(ScriptedEndpoint):
             if msg["code"] == rc.code(2, 31) and nxt is not None and not nxt[0]:
                 nxt[0] = True
                 nxt[1]()
+            fol = getattr(self, "b2_follow", {}).get(msg["token"])
+            if fol is not None and msg["code"] == rc.CONTENT:
+                b2 = rc.opt1(msg, rc.BLOCK2)
+                num, more, szx = rc.block_value(b2) if b2 is not None else (0, False, 6)
+                if num == fol["next"]:
+                    fol["body"] += msg["payload"]
+                    fol["next"] = num + 1
+                    if more:
+                        self.loop.after(fol["gap"], fol["ask"], num + 1, szx)
+                    else:
+                        fol["complete"] = True
+            elif fol is not None and not fol.get("complete"):
+                fol["failed"] = msg["code"]
             if msg["type"] == rc.CON:
                 self.send(src, msg={"type": rc.ACK, "code": 0, "mid": msg["mid"], "token": b"", "options": [],
                                     "payload": b""})
@@ -607,6 +624,8 @@ def execute(sim, scn):
     arrivals = {}  # token -> t_srv
     block_arrivals = {}  # token -> {block number: t_srv}
     client.continuations = {}
+    client.b2_follow = {}
+    b2_clients = {}
 
     def on_deliver(entry, copy, data):
         m = entry["msg"]
@@ -638,6 +657,22 @@ def execute(sim, scn):
             else:
                 client.continuations[token] = [False, lambda: block(1, False, 0, body[16:])]
                 block(0, True, 0, body[:16])
+            return
+        if op.get("b2"):
+            sim.probe("listing_fetched_blockwise")
+
+            # every block-wise fetch comes from an endpoint of its own (one endpoint running two transfers of the same
+            # resource at once could not tell their blocks apart: RFC 7959 leaves that to the client)
+            cl = Client(sim, common.PEER_IPS[0], 40200 + i)
+            cl.b2_follow = {}
+            b2_clients[i] = cl
+
+            def ask(num, szx, options=options, token=token, cl=cl):
+                opts = sorted(options + [(rc.BLOCK2, rc.block_bytes(num, False, szx))], key=lambda o: o[0])
+                cl.send(server_addr, msg={"type": rc.CON, "code": rc.GET, "mid": cl.next_mid(), "token": token,
+                                          "options": opts, "payload": b""})
+            cl.b2_follow[token] = {"next": 0, "body": b"", "gap": op["b2"]["gap"], "ask": ask}
+            ask(0, op["b2"]["szx"])
             return
         client.send(server_addr, msg={"type": rc.CON, "code": rc.GET, "mid": client.next_mid(), "token": token,
                                       "options": options, "payload": b""})
@@ -703,10 +738,16 @@ def execute(sim, scn):
             continue
         token = bytes([0xC0 | (i >> 8), i & 0xFF])
         t_srv = arrivals.get(token)
-        resps = client.responses.get(token)
+        resps = b2_clients.get(i, client).responses.get(token)
         if t_srv is None or not resps:
             continue
         resp = resps[0][1]
+        fol = b2_clients[i].b2_follow.get(token) if i in b2_clients else None
+        if fol is not None and resp["code"] == rc.CONTENT:
+            if not fol.get("complete"):
+                sim.probe("wkc_blockwise_incomplete")
+                continue  # (lost blocks; a transfer refused half-way is not about routing or the listing's content)
+            resp = dict(resp, payload=fol["body"])
         if op.get("b1") == 2:
             finals = [(t, m) for (t, m) in resps if m["code"] != rc.code(2, 31)]
             if not finals:
@@ -843,7 +884,13 @@ def execute(sim, scn):
             sim.probe("abbrev_ok")
         # ---- /.well-known/core
         b2 = rc.opt1(resp, rc.BLOCK2)
-        if b2 is not None and rc.block_value(b2)[1]:
+        if fol is not None:
+            if fol["next"] > 1:
+                sim.probe("wkc_assembled_from_blocks")
+                if any(t_srv + TOL < x for x in times if x < resps[-1][0] - TOL):
+                    sim.probe("registration_changed_between_blocks")
+                    sim.nontrivial = True
+        elif b2 is not None and rc.block_value(b2)[1]:
             sim.probe("wkc_blockwise_skipped")
             continue
         try:
